@@ -251,12 +251,36 @@ def replay_fn(c):
              "%s on a %d-sample region (sw=%d ch=%d sr=%d) returns %d bytes, expected %s" % (desc, n, sw, ch, sr, len(res.data), [len(w) for w in want]))]
 
 
+LENGTH_PROBE_N = 0
+
+
+def length_probe(only=None):
+    global LENGTH_PROBE_N
+    ak = loader.real_auditok()
+    out = []
+    pairs = [(n, sr) for sr in (8000, 16000, 22050, 44100, 48000, 1234) for n in (0, 1, 15, 21, 23, 27, 30, 39, 46, 49, 1001, 1003, 44099)]
+    if only:
+        pairs = [only]
+    LENGTH_PROBE_N = len(pairs)
+    for n, sr in pairs:
+        r = ak.AudioRegion(bytes(n), sr, 1, 1)
+        sub = r[:n]
+        if len(r) != n or r.len != n or len(sub) != n or abs(r.duration - n / sr) > 1e-12:
+            out.append(("C16: len() is not the sample count", "AudioRegion of %d samples at %d Hz: len() = %d, duration = %r" % (n, sr, len(r), r.duration),
+                        {"kind": "length", "n": n, "sr": sr}))
+    return out
+
+
 def replay(c):
+    if c.get("kind") == "length":
+        f = length_probe((c["n"], c["sr"]))
+        return (bool(f), f[0][1] if f else "property holds on the real code for this input")
     f = replay_fn(c)
     return (bool(f), f[0][1] if f else "property holds on the real code for this input")
 
 
 def run(rep):
+    tok.VALIDATE[0] = replay_fn
     L = loader.load()
     core = L.core
     rep.hashes = L.hashes
@@ -292,6 +316,12 @@ def run(rep):
         ex = explore(twostep_harness(core, 2, 1, 10, view, den), workers=4)
         rep.add_exploration(hn, ex)
         tok.handle_cex(rep, hn, ex, replay_fn, ideal=True)
+    # concrete probe (not part of the solver claim): len() and duration for sample counts and rates where a float-based
+    # implementation would be off by one (n/rate*rate < n in doubles)
+    bad = length_probe()
+    rep.notes.append("length probe: %d (n, rate) pairs on the real AudioRegion, %d wrong" % (LENGTH_PROBE_N, len(bad)))
+    for key, what, c in bad[:1]:
+        rep.add_violation(key, what, c)
     for case in TYPE_CASES:
         ex = explore(type_harness(core, case), workers=1)
         rep.add_exploration("types[%s]" % case, ex)
